@@ -215,14 +215,13 @@ class VLoop(asyncio.BaseEventLoop):
         asyncio.set_event_loop(None)
 
     def collect_errors(self) -> List[dict]:
-        """Everything the loop's exception handler saw, after a full garbage collection (so that
-        'Task was destroyed but it is pending' / 'exception was never retrieved' reports do not depend on
-        when the collector happens to run), de-duplicated and in a canonical order."""
-        for _ in range(2):
-            try:
-                gc.collect()
-            except RuntimeError:
-                pass
+        """Everything the loop's exception handler saw (after collecting the young generations, so that
+        'exception was never retrieved' reports of the execution just finished are in), de-duplicated and
+        in a canonical order."""
+        try:
+            gc.collect(1)  # young generations only: a full collection per execution is far too slow
+        except RuntimeError:
+            pass
         seen = {}
         for e in self.errors:
             key = (e.get("message") or "", e.get("exception") or "")
